@@ -14,8 +14,9 @@ import (
 // ---------------------------------------------------------------------------
 
 type ModSet struct {
-	all bool
-	set map[string]keyInfo
+	all  bool
+	set  map[string]keyInfo
+	keep map[string]bool // with all: heap-key prefixes that are nevertheless left unchanged (declared by contracts)
 }
 
 type keyInfo struct {
@@ -40,7 +41,18 @@ func (m *ModSet) union(o *ModSet) bool {
 	ch := false
 	if o.all && !m.all {
 		m.all = true
+		m.keep = map[string]bool{}
+		for k := range o.keep {
+			m.keep[k] = true
+		}
 		ch = true
+	} else if o.all && m.all {
+		for k := range m.keep {
+			if !o.keep[k] {
+				delete(m.keep, k)
+				ch = true
+			}
+		}
 	}
 	for k, v := range o.set {
 		if _, ok := m.set[k]; !ok {
@@ -69,6 +81,8 @@ func (vc *VC) registerKey(k string) {
 		vc.mapKeys(info.t.Underlying().(*types.Map))
 	case "G":
 		vc.globalKey(info.g)
+	case "Gh":
+		vc.ghostKey(k)
 	}
 }
 
@@ -205,7 +219,15 @@ func (eng *Engine) directMods(fn *ssa.Function, inBlock func(int) bool) (*ModSet
 					continue
 				}
 				c := x.Common()
+				if _, ok := isConnMethod(c); ok {
+					eng.addGhostConn(m)
+					continue
+				}
 				if c.IsInvoke() {
+					if cm := eng.contractMods(eng.ifaceContracts[c.Method]); cm != nil {
+						m.union(cm)
+						continue
+					}
 					impls := eng.implementations(c.Value.Type(), c.Method)
 					if impls == nil {
 						eng.externalEffects(m, c)
@@ -226,8 +248,9 @@ func (eng *Engine) directMods(fn *ssa.Function, inBlock func(int) bool) (*ModSet
 				case *ssa.Function:
 					if eng.modelFor(f) != nil {
 						eng.modelFor(f).mods(eng, m, c)
-					} else if ct := eng.contractOf(f); ct != nil && ct.ModNothing {
-						// declared (and checked) frame
+					} else if cm := eng.contractMods(eng.contractOf(f)); cm != nil {
+						// declared frame
+						m.union(cm)
 					} else if inModule(f) && len(f.Blocks) > 0 {
 						callees = append(callees, f)
 					} else {
@@ -243,6 +266,66 @@ func (eng *Engine) directMods(fn *ssa.Function, inBlock func(int) bool) (*ModSet
 		}
 	}
 	return m, callees
+}
+
+// contractMods: the effects a contract declares outright (modifies nothing, or
+// preserves type ...); nil when the contract leaves them to the static analysis.
+func (eng *Engine) contractMods(ct *Contract) *ModSet {
+	if ct == nil {
+		return nil
+	}
+	if ct.ModNothing {
+		return newModSet()
+	}
+	if len(ct.PreserveTypes) > 0 {
+		m := newModSet()
+		m.all = true
+		m.keep = map[string]bool{}
+		for _, p := range ct.keepPrefixes() {
+			m.keep[p] = true
+		}
+		return m
+	}
+	if ct.IfaceMethod != nil {
+		return &ModSet{all: true, set: map[string]keyInfo{}}
+	}
+	return nil
+}
+
+func (ct *Contract) keepPrefixes() []string {
+	var res []string
+	for _, t := range ct.PreserveTypes {
+		if strings.Contains(t, ".") {
+			// a type of another package of the module: <dir>.<Type>
+			res = append(res, "F|"+modulePath+"/"+t+"|")
+		} else {
+			res = append(res, "F|"+ct.PkgPath+"."+t+"|")
+		}
+	}
+	return res
+}
+
+// havocMods forgets what a callee or loop with effects m may have written.
+func (vc *VC) havocMods(st *State, m *ModSet) {
+	if m.all {
+		if len(m.keep) == 0 {
+			vc.havocAll(st)
+			return
+		}
+		var ks []string
+		for k := range m.keep {
+			ks = append(ks, k)
+		}
+		sort.Strings(ks)
+		vc.havocProtect(st, nil, ks)
+	}
+	for _, k := range m.keys() {
+		vc.registerKey(k)
+		vc.havocHeap(st, k, "", nil)
+	}
+	if !m.all {
+		vc.bumpNext(st)
+	}
 }
 
 // externalEffects: an external function without a model may write the
